@@ -28,6 +28,10 @@ pub enum ISpec {
     BV(Vec<bool>),
     IV(Vec<i32>),
     FV(Vec<u32>),
+    /// an INDEX literal (current, destination): not parser-producible, legal via the API
+    Idx(u32, u32),
+    /// a GRAPH literal built by recipe
+    G(GraphSpec),
 }
 
 /// Wire form of an ISpec: a flat token list (`Open` ... `Close` for lists), so
@@ -45,6 +49,8 @@ pub enum Tok {
     BV(Vec<bool>),
     IV(Vec<i32>),
     FV(Vec<u32>),
+    Idx(u32, u32),
+    G(GraphSpec),
 }
 
 #[derive(Serialize, Deserialize, Clone, Debug, PartialEq)]
@@ -67,6 +73,8 @@ fn flatten(x: &ISpec, out: &mut Vec<Tok>) {
         ISpec::BV(v) => out.push(Tok::BV(v.clone())),
         ISpec::IV(v) => out.push(Tok::IV(v.clone())),
         ISpec::FV(v) => out.push(Tok::FV(v.clone())),
+        ISpec::Idx(c, d) => out.push(Tok::Idx(*c, *d)),
+        ISpec::G(g) => out.push(Tok::G(g.clone())),
     }
 }
 
@@ -100,6 +108,8 @@ impl From<FlatISpec> for ISpec {
                 Tok::BV(v) => stack.last_mut().unwrap().push(ISpec::BV(v)),
                 Tok::IV(v) => stack.last_mut().unwrap().push(ISpec::IV(v)),
                 Tok::FV(v) => stack.last_mut().unwrap().push(ISpec::FV(v)),
+                Tok::Idx(c, d) => stack.last_mut().unwrap().push(ISpec::Idx(c, d)),
+                Tok::G(g) => stack.last_mut().unwrap().push(ISpec::G(g)),
             }
         }
         let mut top = stack.into_iter().next().unwrap_or_default();
@@ -125,6 +135,13 @@ impl ISpec {
             ISpec::FV(v) => Item::floatvec(FloatVector::new(
                 v.iter().map(|b| f32::from_bits(*b)).collect(),
             )),
+            ISpec::Idx(c, d) => Item::index(Index {
+                current: *c as usize,
+                destination: *d as usize,
+            }),
+            ISpec::G(g) => Item::Literal {
+                push_type: PushType::Graph { val: g.build().0 },
+            },
         }
     }
 
@@ -150,8 +167,8 @@ impl ISpec {
                 PushType::FloatVector { val } => {
                     ISpec::FV(val.values.iter().map(|f| f.to_bits()).collect())
                 }
-                PushType::Index { val } => ISpec::N(format!("<index {}>", val)),
-                PushType::Graph { val: _ } => ISpec::N("<graph>".to_string()),
+                PushType::Index { val } => ISpec::Idx(val.current as u32, val.destination as u32),
+                PushType::Graph { val } => ISpec::G(GraphSpec::from_graph(val)),
             },
         }
     }
@@ -209,6 +226,9 @@ impl ISpec {
                 );
                 out.push(']');
             }
+            // no text form: such items only travel as trees
+            ISpec::Idx(c, d) => out.push_str(&format!("<index:{}/{}>", c, d)),
+            ISpec::G(g) => out.push_str(&format!("<graph:{}n{}e>", g.nodes.len(), g.edges.len())),
         }
     }
 
@@ -315,6 +335,39 @@ pub struct GraphSpec {
     pub edges: Vec<(usize, usize, u32)>,
 }
 
+impl GraphSpec {
+    /// Builds the graph; returns it with the ids its nodes received.
+    pub fn build(&self) -> (Graph, Vec<usize>) {
+        let mut graph = Graph::new();
+        let mut gids = vec![];
+        for s in &self.nodes {
+            gids.push(graph.add_node(*s));
+        }
+        for (a, b, w) in &self.edges {
+            if *a < gids.len() && *b < gids.len() {
+                graph.add_edge(gids[*a], gids[*b], f32::from_bits(*w));
+            }
+        }
+        (graph, gids)
+    }
+
+    pub fn from_graph(g: &Graph) -> GraphSpec {
+        let mut ids: Vec<usize> = g.nodes.iter().map(|(k, _)| *k).collect();
+        ids.sort();
+        let nodes = ids.iter().map(|id| g.nodes.get(id).unwrap().get_state()).collect();
+        let mut edges = vec![];
+        for (dst, inc) in g.edges.iter() {
+            for e in inc.iter() {
+                if let (Ok(a), Ok(b)) = (ids.binary_search(&e.get_origin_id()), ids.binary_search(dst)) {
+                    edges.push((a, b, e.get_weight().to_bits()));
+                }
+            }
+        }
+        edges.sort();
+        GraphSpec { nodes, edges }
+    }
+}
+
 /// An integer of the initial INTEGER stack: a plain value or a reference to the
 /// id of a node of a recipe-built graph (plus an offset, to aim at stale ids).
 #[derive(Serialize, Deserialize, Clone, Debug, PartialEq)]
@@ -351,16 +404,7 @@ impl StateSpec {
         cfg.apply(&mut st.configuration);
         let mut ids: Vec<Vec<usize>> = vec![];
         for g in &self.graphs {
-            let mut graph = Graph::new();
-            let mut gids = vec![];
-            for s in &g.nodes {
-                gids.push(graph.add_node(*s));
-            }
-            for (a, b, w) in &g.edges {
-                if *a < gids.len() && *b < gids.len() {
-                    graph.add_edge(gids[*a], gids[*b], f32::from_bits(*w));
-                }
-            }
+            let (graph, gids) = g.build();
             ids.push(gids);
             st.graph_stack.push(graph);
         }
